@@ -19,6 +19,10 @@ int main(int argc, char** argv) {
     a.tier = a.get("tier", "quick");
     a.only_case = a.getl("case", -1);
     a.cases = a.getl("cases", -1);
+    // global overrides usable with every family: --forcepol storage,mm,deletion  (policy of every forest made by
+    // makeForest) and --ct style,stale,maxsize (compute-table configuration of every libInit() without argument)
+    if (!a.get("forcepol").empty()) setenv("MDH_FORCE_POL", a.get("forcepol").c_str(), 1);
+    if (!a.get("ct").empty()) setenv("MDH_CT_CONF", a.get("ct").c_str(), 1);
     setvbuf(stdout, nullptr, _IOFBF, 1 << 20);
     for (auto& f : families()) {
         if (a.family == f.name) {
